@@ -249,6 +249,72 @@ def run_client_segmentations(o, ctx, t, r):
     o.extra["client_segmentation_groups"] = len(groups)
 
 
+def run_server_segmentations(o, ctx, t, r):
+    """C03, server side: the same request stream (head, then body) cut in different ways — including not at all, so that the
+    first socket read returns head and body together and may fill the head buffer to the brim — must get the same answer from
+    the real Server::handle (CONN domain; kmodel = the read_request loop + handle_connection model)."""
+    body6k = bytes(r.choice(b"abcdefghij") for _ in range(6000))
+    streams = []   # (max_head, head, body, expected first item or None = only equality across segmentations is checked)
+    h_p = b"GET /p/alpha/beta HTTP/1.1\r\nHost: x\r\n\r\n"
+    streams.append((4096, h_p, b"", "R200:0:" + hx(b"alpha,beta")))
+    for mx in (len(h_p), len(h_p) + 1, len(h_p) + 7, 64):
+        streams.append((mx, h_p, b"", "R200:0:" + hx(b"alpha,beta") if len(h_p) <= mx else "R431:1:e"))
+    h_e = b"POST /echo HTTP/1.1\r\nContent-Length: 6000\r\nX-Pad: " + b"p" * r.choice([0, 10, 100]) + b"\r\n\r\n"
+    streams.append((4096, h_e, body6k, "R200:0:" + hx(body6k)))
+    for pad_to in (4096, 4095, 4090):
+        hh = b"POST /echo HTTP/1.1\r\nContent-Length: 20\r\nX-Pad: "
+        hh = hh + b"p" * (pad_to - len(hh) - 4) + b"\r\n\r\n"
+        streams.append((4096, hh, body6k[:20], "R200:0:" + hx(body6k[:20])))
+    for mx in (60, 100, 300):
+        hh = b"POST /echo HTTP/1.1\r\nContent-Length: 500\r\n\r\n"
+        streams.append((mx, hh, body6k[:500], "R200:0:" + hx(body6k[:500]) if len(hh) <= mx else "R431:1:e"))
+    streams.append((4096, b"POST /echo HTTP/1.1\r\nTransfer-Encoding: chunked\r\n\r\n", b"5\r\nhello\r\n1;x=y\r\n!\r\n0\r\nT: v\r\n\r\n", "R200:0:" + hx(b"hello!")))
+    streams.append((4096, b"GET /\x01 HTTP/1.1\r\n\r\n", b"", "R400:1:e"))
+    streams.append((4096, b"CONNECT example.com:443 HTTP/1.1\r\nHost: example.com\r\n\r\n", b"", "R404:0:e"))
+    streams.append((4096, b"GET http://example.com/p/1/2?q=1 HTTP/1.1\r\n\r\n", b"", "R200:0:" + hx(b"1,2")))
+    for _ in range(2 if t == "quick" else 40):
+        streams.append((4096, G.gen_wf_request(r)[:3000], b"", None))
+    lines, groups = [], []
+    for mx, head, body, exp in streams:
+        st = head + body
+        cutsets = [[], [len(head)]]
+        for c in range(max(1, len(head) - 3), min(len(st), len(head) + 3)):
+            cutsets.append([c])
+        if mx < len(st):
+            cutsets += [[mx], [mx - 1], [mx + 1]] if mx > 1 else []
+        for _ in range(3 if t == "quick" else 10):
+            cutsets.append(sorted(set(r.randrange(1, max(2, len(st))) for _ in range(r.choice([1, 2, 3, 6])))))
+        if len(st) < 70:
+            cutsets.append(list(range(1, len(st))))
+        start = len(lines)
+        for cs in cutsets:
+            segs, p = [], 0
+            for c in [c for c in cs if 0 < c < len(st)] + [len(st)]:
+                if c > p:
+                    segs.append(st[p:c]); p = c
+            lines.append("CONN max=%d script=%s,r,c,e" % (mx, ",".join("s:" + hx(x) for x in segs)))
+        groups.append((exp, start, len(lines)))
+    impl = C.run_sharded(ctx["kimpl"], lines, shards=min(C.NCPU, 16))
+    model = C.run_sharded(ctx["kmodel"], lines) if ctx.get("have_model") else None
+    for exp, a, b in groups:
+        ref = impl[a].split()[1] if len(impl[a].split()) > 1 else impl[a]
+        for i in range(a, b):
+            o.evaluations += 1
+            got = impl[i].split()[1] if len(impl[i].split()) > 1 else impl[i]
+            o.count("server-seg:" + got.split(":")[0][:5])
+            o.nontrivial.add(lines[i])
+            why = None
+            if got != ref:
+                why = "server outcome depends on how the request stream is segmented: %s vs %s (one segment)" % (got[:60], ref[:60])
+            elif exp is not None and got.split(",")[0] != exp:
+                why = "server answered %s, the request stream calls for %s" % (got.split(",")[0][:60], exp[:60])
+            if why and len(o.violations) < 50:
+                o.violations.append({"case": lines[i], "cases": [lines[a], lines[i]], "impl": impl[i][:300], "expected": ref[:300], "why": why})
+            if model is not None and model[i].split()[:2] != impl[i].split()[:2] and len(o.mismatches) < 20:
+                o.mismatches.append({"case": lines[i], "impl": impl[i][:300], "model": model[i][:300]})
+    o.extra["server_segmentation_groups"] = len(groups)
+
+
 def tags_parse(c, a):
     return c.split()[0] + ":" + (" ".join(a.split()[:2]) if a.startswith("ERR") else a.split()[0] if a else "?")
 
@@ -300,6 +366,7 @@ def run_parse(pid, oracle):
             impl, model = diff_run(o, ctx, ls, nontrivial=nontriv, tags=lambda c, a: "prefix:" + a.split()[0])
             o.extra["prefix_chains"] = len(bases)
             run_client_segmentations(o, ctx, t, r)
+            run_server_segmentations(o, ctx, t, r)
             for dom, b, st in idx:
                 why = check_prefix_chain(dom, b, impl[st:st + len(b) + 1])
                 if why and len(o.violations) < 50:
